@@ -7,6 +7,8 @@ case letters, never D-Bus type codes) that select another RUST type for the same
 signature, the model type and the value tokens are those of the unmarked name (lib/wiregen.parse_ext and
 ocaml/wire/driver.ml parse_ety drop the markers):
   D  raw f64 (the element type with the `valid_slice` memcpy path; `d` is the wrapper F64 = general path)
+  V[<t>]  a variant like v[<t>]; v takes alignment / sig_str / has_sig from the crate's marshal::traits::Variant<T>, V from
+          unmarshal::traits::Variant (the harness wrappers delegate, they do not describe the variant themselves)
   H  descriptor written through <&dyn AsRawFd as Marshal>, read through UnixFd
   S  String written through &str and read through <&str as Unmarshal>      O  ObjectPath<&str>      G  SignatureWrapper<&str>
   aC<e>  read through Cow<[E]>, written through &[E]          aR<e>  written through <&[E] as Marshal> directly
@@ -56,11 +58,11 @@ def parse(s):
             p, rest = parse(rest)
             parts.append(p)
         return "(%s,)" % ", ".join(parts), rest[1:]
-    if c == "v":
+    if c in "vV":
         assert s[1] == "["
         inner, rest = parse(s[2:])
         assert rest[0] == "]"
-        return "Var<%s>" % inner, rest[1:]
+        return "%s<%s>" % ("Var" if c == "v" else "UVar", inner), rest[1:]
     raise ValueError(s)
 
 
@@ -141,6 +143,9 @@ def flavoured():
     out += ["aBy", "(yaBy)", "(aByy)", "(taBy)", "(yaByq)", "(aByt)", "aaBy", "a{saBy}", "v[aBy]", "a(aByn)"]
     # <&str as Unmarshal>, ObjectPath<&str>, SignatureWrapper<&str>
     out += ["S", "aS", "(yS)", "(Sy)", "(ySq)", "(SyS)", "a{St}", "a{sS}", "a{SS}", "v[S]", "aaS", "a(Sy)", "aCS", "aNS"]
+    # variants whose Signature impl is the one of unmarshal::traits::Variant, where alignment matters (element / member position)
+    out += ["V[y]", "V[t]", "V[s]", "aV[t]", "aV[s]", "aV[y]", "(yV[t])", "(V[t]y)", "(yV[s]q)", "(tV[y]t)", "a{sV[t]}", "a{yV[s]}", "a(yV[at])",
+            "aCV[t]", "aNV[s]", "V[V[y]]", "v[V[t]]", "V[v[t]]", "V[a(yt)]", "aaV[t]"]
     out += ["H", "aH", "(yH)", "(Hy)", "(yHq)", "a{sH}", "(HsH)", "a(yH)"]
     out += ["O", "G", "aO", "aG", "(yO)", "(Gy)", "(yGq)", "(Oyt)", "a{sO}", "a{Oy}", "a{sG}", "v[O]", "v[G]", "a(Gy)"]
     return out
@@ -153,7 +158,29 @@ def marshal_only():
     for t in out:
         rust(t)
         assert all(len(split_struct(x)) <= 5 for x in structs(t)) and any(len(split_struct(x)) == 5 for x in structs(t)), t
+    # Rust types whose signature the protocol forbids or just allows, inside a typed variant (Marshal::marshal_as_variant has to
+    # check what it writes) and bare: 255 / 256 / 320 characters, 32 / 33 nested arrays
+    for n in (255, 256, 320):
+        out += ["v[%s]" % sized_struct(n), "(yv[%s])" % sized_struct(n - 0)]
+    out += ["v[%s]" % ("a" * 32 + "y"), "v[%s]" % ("a" * 33 + "y"), "av[%s]" % ("a" * 33 + "t"), "v[(y%s)]" % ("a" * 33 + "y")]
     return out
+
+
+def sized_struct(n):
+    """a struct type of bytes whose signature has exactly n characters (members: y or such structs, at most 5 each)"""
+    assert n >= 3
+    if n <= 7:
+        return "(" + "y" * (n - 2) + ")"
+    inner = n - 2
+    for k in (5, 4, 3, 2):
+        # k members: as many single bytes as needed so that the rest splits into sizes >= 3
+        for ones in range(k):
+            big = k - ones
+            rest = inner - ones
+            if big and rest >= 3 * big:
+                sizes = [rest // big + (1 if i < rest % big else 0) for i in range(big)]
+                return "(" + "y" * ones + "".join(sized_struct(x) for x in sizes) + ")"
+    raise ValueError(n)
 
 
 def deep():
